@@ -226,19 +226,23 @@ impl FixedMethod {
 
         // Zo-fola insertion
         if value == "\u{09CD}\u{09AF}" {
+            // In the old kar order a left standing kar is already attached to its
+            // consonant, the Zo-fola goes (and has to look) before it.
+            let kar = if config.get_fixed_old_kar_order() && is_left_standing_kar(rmc) {
+                self.buffer.pop()
+            } else {
+                None
+            };
+            let rmc = self.buffer.chars().last().unwrap_or_default();
             // Check if র is not a part of a Ro-fola, if its not then add an ZWJ before
             // the Zo-fola to have the র‍্য form.
             if rmc == B_R && self.buffer.chars().rev().nth(1).unwrap_or_default() != B_HASANTA {
                 self.buffer.push(ZWJ);
             }
-            if config.get_fixed_old_kar_order() && is_left_standing_kar(rmc) {
-                if let Some(kar) = self.buffer.pop() {
-                    self.buffer.push_str(value);
-                    self.buffer.push(kar);
-                    return;
-                }
-            }
             self.buffer.push_str(value);
+            if let Some(kar) = kar {
+                self.buffer.push(kar);
+            }
             return;
         }
 
